@@ -185,7 +185,7 @@ def report(prop, tier, seed, mod, outs, extras, wall) -> int:
     vacuous = [c for c in canary_all if not canary_ok.get(c)]
     if vacuous:
         errors.append("canary obligations verified (vacuity): " + ", ".join(sorted(vacuous)))
-    if obligations == 0:
+    if obligations == 0 and not bounded:
         errors.append("zero obligations generated")
     # ---- output
     for kid, r in known_hit.items():
@@ -205,9 +205,11 @@ def report(prop, tier, seed, mod, outs, extras, wall) -> int:
                       samples=samples[:12], units=per_unit, canaries=dict(total=len(canary_all), refuted=len([c for c in canary_all if canary_ok.get(c)])),
                       undecided=[dict(name=u["name"], detail=u.get("detail", "")[:300]) for u in undecided][:40],
                       known_findings_hit=sorted(k for k in known_hit if k),
-                      bounded_stand_ins=[dict(name=b["name"], status=b["status"], bound=b.get("bound", ""), cases=b.get("cases", 0)) for b in bounded],
-                      evaluations=obligations, distinct_nontrivial=discharged,
-                      rule="one evaluation = one named obligation (function x path x clause) generated from the current source; distinct by name; non-trivial = not closed by simplification alone is not separated, all are counted",
+                      bounded_stand_ins=[dict(name=b["name"], status=b["status"], bound=b.get("bound", ""), cases=b.get("cases", 0),
+                                              nontrivial=b.get("nontrivial", 0), samples=b.get("samples", [])[:2], time_s=b.get("time_s", 0)) for b in bounded],
+                      evaluations=obligations + sum(b.get("cases", 0) for b in bounded),
+                      distinct_nontrivial=discharged + sum(b.get("nontrivial", 0) for b in bounded),
+                      rule="one evaluation = one named obligation (function x path x clause) generated from the current source, distinct by name; plus, for bounded stand-ins (listed separately, never counted in 'discharged'), one evaluation per enumerated input, non-trivial = input that exercises the clause (e.g. a valid graph, a non-empty reset set, an expression that evaluates)",
                       explanation=getattr(mod, "EXPLANATION", ""), verdict=status, errors=errors[:20]),
         assumptions=sorted(assumptions | set(getattr(mod, "ASSUMPTIONS", []))),
         wall_s=round(wall, 2), violations=len(violations))
